@@ -11,7 +11,7 @@ OUT=seeded/benign/RESULTS.md
   echo "| change | checks run | result |"; echo "|---|---|---|"
 } > $OUT.tmp
 bad=0
-for d in $(ls -d seeded/benign/C??-b* | sort -V); do
+for d in $(ls -d seeded/benign/*-b* | sort -V); do
   [ -n "${1:-}" ] && [[ "$(basename $d)" != $1* ]] && continue
   ids="$(cat $d/checks.txt)"
   res="$(./seeded_run.sh $d $ids 2>&1)"
